@@ -513,16 +513,15 @@ def has_nan(spec):
 
 def containers(kind, pool, maxlen):
     """Every container of the kind with <= maxlen elements from pool (dict /
-    mdict: that many key-value pairs).  NaN is kept out of set elements and
-    dict keys, whose equality Python defines by identity."""
+    mdict: that many key-value pairs), as a generator.  NaN is kept out of set
+    elements and dict keys, whose equality Python defines by identity."""
     import itertools
-    out = []
     if kind == "set":
         elems = [p for p in pool if hashable(p) and not has_nan(p)]
         for n in range(maxlen + 1):
             for c in itertools.combinations(elems, n):
-                out.append(("set", list(c)))
-        return out
+                yield ("set", list(c))
+        return
     if kind == "mset":
         pool = [p for p in pool if not has_nan(p)]
     if kind in ("dict", "mdict"):
@@ -531,29 +530,32 @@ def containers(kind, pool, maxlen):
             for ks in itertools.combinations(keys, n):
                 for vs in itertools.product(pool, repeat=n):
                     pairs = [[k, v] for k, v in zip(ks, vs)]
-                    out.append(("dict", None, pairs) if kind == "dict" else ("mdict", [x for p in pairs for x in p]))
-        return out
+                    yield ("dict", None, pairs) if kind == "dict" else ("mdict", [x for p in pairs for x in p])
+        return
     for n in range(maxlen + 1):
         for c in itertools.product(pool, repeat=n):
-            out.append(("list", None, list(c)) if kind == "list" else (kind, list(c)))
-    return out
+            yield ("list", None, list(c)) if kind == "list" else (kind, list(c))
 
 
 def value_space(tier):
-    """Deterministic list of value specs: all leaves; every depth-1 container
-    over the full leaf pool; every depth-2 container over the small pool."""
-    inner_len = 1
+    """Deterministic stream of value specs: all leaves; every depth-1 container
+    over the full leaf pool; every depth-2 container over the small pool
+    (inner containers of <= INNER_LEN[tier] elements)."""
+    inner_len = INNER_LEN[tier]
     small = LEAVES_SMALL[tier]
-    vals = list(LEAVES_FULL)
+    yield from LEAVES_FULL
     for kind in KINDS:
-        vals += containers(kind, LEAVES_FULL, 1 if kind in ("dict", "mdict") else 2)
+        yield from containers(kind, LEAVES_FULL, 1 if kind in ("dict", "mdict") else 2)
     inner = list(small)
     for kind in KINDS:
-        inner += containers(kind, small, 1 if kind in ("dict", "mdict") else inner_len)
+        inner += list(containers(kind, small, 1 if kind in ("dict", "mdict") else inner_len))
     for kind in KINDS:
-        vals += [v for v in containers(kind, inner, 1 if kind in ("dict", "mdict") else 2)
-                 if any(x[0] in KINDS for x in _children(v))]
-    return vals
+        for v in containers(kind, inner, 1 if kind in ("dict", "mdict") else 2):
+            if any(x[0] in KINDS for x in _children(v)):
+                yield v
+
+
+INNER_LEN = {"quick": 1, "thorough": 2}
 
 
 def _children(spec):
